@@ -136,31 +136,34 @@ func init() {
 		if specParam == "" {
 			return fmt.Errorf("newUClientConnection: last parameter is not the *QUICSpec")
 		}
-		loopShared, loopFound := false, false
-		ast.Inspect(ctor.Body, func(n ast.Node) bool {
-			rs, ok := n.(*ast.RangeStmt)
-			if !ok {
-				return true
+		// Which value is PopulateFromUQUIC (the function that writes the connection's source connection ID into the
+		// parameter list) called on? Follow the argument back through local variables and same-package helpers (a
+		// helper that finds the extension, a helper that does the whole suppress/shuffle/populate sequence, …): it is
+		// SHARED iff it may alias the spec parameter's own objects (uSpec.ClientHelloSpec.Extensions…), and a
+		// per-connection value iff every path ends in a fresh object (a call that copies, a literal).
+		fl := newFlow(p)
+		ctorFn := mkFnBody("newUClientConnection", ctor.Type, nil, ctor.Body)
+		sites := fl.reach(ctorFn, "PopulateFromUQUIC", 3)
+		if len(sites) == 0 {
+			return fmt.Errorf("newUClientConnection: no call of PopulateFromUQUIC in it or in the same-package helpers it calls")
+		}
+		loopShared := false
+		for _, cs := range sites {
+			if len(cs.call.Args) != 1 {
+				return fmt.Errorf("newUClientConnection: PopulateFromUQUIC is not called with one argument")
 			}
-			sel, ok := rs.X.(*ast.SelectorExpr)
-			if !ok || sel.Sel.Name != "Extensions" || len(findCalls(rs.Body, "PopulateFromUQUIC")) == 0 {
-				return true
+			if fl.rootsAt(cs, cs.call.Args[0])[specParam] {
+				loopShared = true
 			}
-			loopFound = true
-			// shared iff the ranged expression is a field path of the spec parameter itself (uSpec.ClientHelloSpec.Extensions)
-			loopShared = rootIdent(sel.X) == specParam
-			return true
-		})
-		if !loopFound {
-			return fmt.Errorf("newUClientConnection: no loop over <x>.Extensions that calls PopulateFromUQUIC")
 		}
 		cs := findCalls(ctor.Body, "NewUCryptoSetupClient")
 		if len(cs) != 1 || len(cs[0].Args) == 0 {
 			return fmt.Errorf("newUClientConnection: expected exactly one call of NewUCryptoSetupClient")
 		}
-		tlsShared := rootIdent(cs[0].Args[len(cs[0].Args)-1]) == specParam
-		w.P("/-- u_connection.go `newUClientConnection`: the loop that feeds `PopulateFromUQUIC` ranges over the spec's own")
-		w.P("    extension list (`%s.ClientHelloSpec.Extensions`), not over a per-connection copy -/", specParam)
+		lastArg := cs[0].Args[len(cs[0].Args)-1]
+		tlsShared := fl.roots(ctorFn, lastArg, lastArg.Pos(), 0)[specParam]
+		w.P("/-- u_connection.go `newUClientConnection`: the parameter list handed to `PopulateFromUQUIC` may alias the spec's own")
+		w.P("    extension list (`%s.ClientHelloSpec.Extensions`) instead of a per-connection copy (value-origin analysis) -/", specParam)
 		w.P("def qtpLoopOverSpecExts : Bool := %s", leanBool(loopShared))
 		w.P("/-- u_connection.go `newUClientConnection`: `NewUCryptoSetupClient` (uTLS ApplyPreset) receives the spec's own ClientHelloSpec -/")
 		w.P("def tlsGetsSpecCHS : Bool := %s", leanBool(tlsShared))
@@ -176,21 +179,45 @@ func init() {
 			return fmt.Errorf("wire.(*TransportParameters).PopulateFromUQUIC(quicparams) not found")
 		}
 		arg := pop.Type.Params.List[0].Names[0].Name
-		writes := false
-		ast.Inspect(pop.Body, func(n ast.Node) bool {
-			as, ok := n.(*ast.AssignStmt)
-			if !ok {
-				return true
-			}
-			for _, l := range as.Lhs {
-				if ix, ok := l.(*ast.IndexExpr); ok && rootIdent(ix.X) == arg {
-					if strings.Contains(render(fset, as.Rhs[0]), "InitialSourceConnectionID") {
-						writes = true
+		// an element of the argument slice is assigned an InitialSourceConnectionID value — in PopulateFromUQUIC itself
+		// or in a same-package helper the slice is handed to
+		wfl := newFlow(wp)
+		var writesIn func(fn *fnBody, param string, depth int) bool
+		writesIn = func(fn *fnBody, param string, depth int) bool {
+			found := false
+			ast.Inspect(fn.body, func(n ast.Node) bool {
+				switch x := n.(type) {
+				case *ast.AssignStmt:
+					for i, l := range x.Lhs {
+						ix, ok := l.(*ast.IndexExpr)
+						if !ok || !wfl.roots(fn, ix.X, x.Pos(), 0)[param] {
+							continue
+						}
+						rhs := x.Rhs[0]
+						if len(x.Rhs) == len(x.Lhs) {
+							rhs = x.Rhs[i]
+						}
+						if strings.Contains(render(fset, rhs), "InitialSourceConnectionID") {
+							found = true
+						}
+					}
+				case *ast.CallExpr:
+					if depth == 0 {
+						return true
+					}
+					if h := wfl.helper(x); h != nil {
+						for ai, a := range x.Args {
+							if ai < len(h.params) && h.params[ai] != "" && wfl.roots(fn, a, x.Pos(), 0)[param] && writesIn(h, h.params[ai], depth-1) {
+								found = true
+							}
+						}
 					}
 				}
-			}
-			return true
-		})
+				return true
+			})
+			return found
+		}
+		writes := writesIn(mkFnBody("PopulateFromUQUIC", pop.Type, pop.Recv, pop.Body), arg, 3)
 		w.P("/-- internal/wire/u_transport_parameters.go `PopulateFromUQUIC`: an empty InitialSourceConnectionID entry of the")
 		w.P("    argument slice is overwritten with the connection's source connection ID (`%s[i] = …`) -/", arg)
 		w.P("def populateWritesBack : Bool := %s", leanBool(writes))
